@@ -26,6 +26,7 @@ import LLFreeV.Proofs.SortedBuffer
 import LLFreeV.Proofs.UpperComplete
 import LLFreeV.Proofs.UpperTargeted
 import LLFreeV.Proofs.ConcUpperThreads
+import LLFreeV.Proofs.ConcChange
 namespace LLFree.C10
 open LLFree
 
@@ -112,6 +113,20 @@ theorem conc_quiescent_then_drain_get (c : Cfg) (ok : CfgOk c) (H : Nat → Nat)
       Runs m1 (get c none r) (fun res m' => (∃ x, res = .ok x) ∧ UpperInv0 c H m' ∧ GetOutcome c m1 0 none res m') :=
   ⟨upper_conc_quiescent ok H m inv n cmds hvalid sched hsched hdone,
    fun m1 inv1 habs r ho hcls hloc hv j hj hu => get_base_complete ok inv1 habs r ho hcls hloc hv j hj hu⟩
+
+/-- … and the same after an interleaving in which trees were also changed (class changes, `Offline`):
+    the quiescent state satisfies the invariant for some hidden frames `H' ≥ H`, and after a drain a
+    base-order allocation succeeds whenever a tree is usable. -/
+theorem conc_quiescent_then_drain_get_with_tree_changes (c : Cfg) (ok : CfgOk c) (H : Nat → Nat) (m : Mem) (inv : UpperInv0 c H m)
+    (n : Nat) (cmds : Nat → List CCmd) (hvalid : ∀ k, ∀ x ∈ cmds k, x.valid c) (sched : List Nat) (hsched : ∀ k ∈ sched, k < n)
+    (hdone : ∀ k, k < n → ∃ held, ((concRun sched (m, fun k => Th.at (runUC c (cmds k) ⟨[], []⟩))).2 k).step
+      (concRun sched (m, fun k => Th.at (runUC c (cmds k) ⟨[], []⟩))).1 = .done held) :
+    ∃ H', (∀ i, H i ≤ H' i) ∧ UpperInv0 c H' (concRun sched (m, fun k => Th.at (runUC c (cmds k) ⟨[], []⟩))).1 ∧
+    ∀ m1, UpperInv0 c H' m1 → (∀ s, SlotAbsent m1 s) → ∀ (r : Request), r.order = 0 → r.cls < 8 → r.locOk c →
+      C08.ArgsValid c 0 r → ∀ j, j < c.ntrees → Usable m1 j →
+      Runs m1 (get c none r) (fun res m' => (∃ x, res = .ok x) ∧ UpperInv0 c H' m' ∧ GetOutcome c m1 0 none res m') := by
+  obtain ⟨H', hle, hinv⟩ := upper_conc_quiescent_change ok H m inv n cmds hvalid sched hsched hdone
+  exact ⟨H', hle, hinv, fun m1 inv1 habs r ho hcls hloc hv j hj hu => get_base_complete ok inv1 habs r ho hcls hloc hv j hj hu⟩
 
 /-- the counter of a tree outside the hidden set with a free frame is positive when no slot
     caches its frames: the premise `Usable` of the completeness theorem is "a frame outside
